@@ -30,7 +30,7 @@ type single struct {
 	Extra string `json:"extra,omitempty"`
 }
 
-var extras = []string{"preamble", "noformat", "preamble+noformat", "canonical", "anon", "comments", "preamble+anon", "anonself"}
+var extras = []string{"preamble", "noformat", "preamble+noformat", "canonical", "anon", "comments", "preamble+anon", "anonself", "latealias"}
 
 func extraOps(extra string) []recipe.FileOp {
 	var ops []recipe.FileOp
@@ -58,6 +58,11 @@ func (c single) scenario() imps.Scenario {
 		sc.File.Ops = append(sc.File.Ops, recipe.FileOp{Op: "PackagePrefix", Args: []recipe.Text{recipe.Text(c.Prefix)}})
 	}
 	sc.File.Ops = append(sc.File.Ops, extraOps(c.Extra)...)
+	if c.Extra == "latealias" {
+		// the File is rendered once, then an alias is asked for: the package keeps the name it was shown under
+		sc.File.Ops = append(sc.File.Ops, recipe.FileOp{Op: "ImportAlias", Args: []recipe.Text{recipe.Text(c.Path), "zzlate"}})
+		sc.Split = len(sc.File.Ops) // everything but the alias is early
+	}
 	if c.Extra == "anonself" {
 		// the package is first asked for as a blank import (for its side effects) and then referenced as well
 		sc.File.Ops = append(sc.File.Ops, recipe.FileOp{Op: "Anon", Args: []recipe.Text{recipe.Text(c.Path)}})
@@ -81,8 +86,7 @@ func check(sc imps.Scenario) error {
 		return err
 	}
 	// spelled out: no alias => the qualifier is the real name; alias => the qualifier is the alias
-	m := imps.ModelOf(&sc.File)
-	real := sc.Real(m)
+	real := sc.Real(o.Model) // (for a staged scenario: the settings in force when the package was first named)
 	for _, imp := range o.Rep.Imports {
 		if imp.Name == "_" || imp.Name == "." {
 			continue
@@ -254,6 +258,10 @@ func TestC18(t *testing.T) {
 		if rapid.IntRange(0, 2).Draw(rt, "extra") == 0 {
 			x := rapid.SampledFrom(extras).Draw(rt, "extrakind")
 			sc.File.Ops = append(sc.File.Ops, extraOps(x)...)
+			if x == "latealias" {
+				sc.File.Ops = append(sc.File.Ops, recipe.FileOp{Op: "ImportAlias", Args: []recipe.Text{recipe.Text(rapid.SampledFrom(sc.Paths).Draw(rt, "latealias")), "zzlate"}})
+				sc.Split = len(sc.File.Ops)
+			}
 			if x == "anonself" {
 				sc.File.Ops = append(sc.File.Ops, recipe.FileOp{Op: "Anon", Args: []recipe.Text{recipe.Text(rapid.SampledFrom(sc.Paths).Draw(rt, "anonself"))}})
 			}
